@@ -548,6 +548,26 @@ func runC03(c *core.Ctx) core.Meta {
 			continue
 		}
 		opTok, kind, width := m[2], m[3], m[4]
+		// a handler that only delegates to another handler is judged by what it delegates to
+		for hop := 0; hop < 2; hop++ {
+			var only *ssa.Function
+			n := 0
+			for _, b := range fn.Blocks {
+				for _, in := range b.Instrs {
+					if cc := core.CallOf(in); cc != nil {
+						n++
+						if cal := cc.StaticCallee(); cal != nil && cal.Pkg == fn.Pkg && strings.HasPrefix(cal.Name(), "run") {
+							only = cal
+						}
+					}
+				}
+			}
+			if n == 1 && only != nil && len(fn.Blocks) == 1 {
+				fn = only
+			} else {
+				break
+			}
+		}
 		// comparisons of the two operand values
 		side := func(v ssa.Value) string {
 			pv := prov.Of(v)
